@@ -53,8 +53,32 @@ def all_paths(tier):
         for n in (3, 4):
             for combo in itertools.product(sub, repeat=n):
                 paths.append((label,) + combo)
+    # the manager's default label '_' next to containers labelled like its members; the container refs themselves (depth 0)
+    for label in ("s", "t", "_"):
+        paths.append((label,))
+    for a in full:
+        paths.append(("_", a))
+    for a in (("a", "s"), ("a", "t"), ("i", "s"), ("a", "a")):
+        for b in full:
+            paths.append(("_", a, b))
     # depth 3/4 paths over the sub pool can coincide with nothing else; dedupe identical tuples
     return list(dict.fromkeys(paths))
+
+
+class Universal(list):
+    """a container in which EVERY path resolves, every level being a real list of five entries: equality of references must not
+    depend on what the containers hold when the reference is built"""
+
+    def __init__(self):
+        super().__init__([0, 1, 2, 3, 4])
+
+    def __getitem__(self, k):
+        return Universal()
+
+    def __getattr__(self, k):
+        if k.startswith("__"):
+            raise AttributeError(k)
+        return Universal()
 
 
 _STATE = {}
@@ -63,11 +87,14 @@ _STATE = {}
 def _setup(tier):
     import xdeps
     m = xdeps.Manager()
-    roots1 = {"s": m.ref({}, "s"), "t": m.ref({}, "t")}
+    roots1 = {"s": m.ref({}, "s"), "t": m.ref({}, "t"), "_": m.ref({})}
     paths = all_paths(tier)
     refs_a = [build(roots1, p) for p in paths]
-    # independently constructed second copy (fresh ref objects)
-    refs_b = [build(roots1, p) for p in paths]
+    # independently constructed second copy (fresh ref objects), by another manager over containers in which every path resolves
+    m2 = xdeps.Manager()
+    roots2 = {"s": m2.ref(Universal(), "s"), "t": m2.ref(Universal(), "t"), "_": m2.ref(Universal())}
+    refs_b = [build(roots2, p) for p in paths]
+    _STATE["m2"] = m2
     _STATE.update(paths=paths, a=refs_a, b=refs_b)
     return m
 
@@ -168,7 +195,16 @@ def job_exprs(_):
     data, funcs = {}, T.Funcs()
     mk = lambda: {"s": Ref(data, "s", m), "f": Ref(funcs, "f", m)}  # noqa  (fresh ref objects each time)
     A_, B_ = ("s", ("i", "a")), ("s", ("i", "n"), ("a", "x"))
-    leaves = [("loc", A_), ("loc", B_), ("lit", 2), ("lit", -0.5), ("lit", True)]
+    leaves = [("loc", A_), ("loc", B_), ("lit", 2), ("lit", -0.5), ("lit", True), ("lit", 1000003), ("lit", 2.5e10)]
+
+    def fresh(t):
+        """the same tree with every literal a NEW object of equal value (two users never share their float / big-int objects)"""
+        if isinstance(t, tuple):
+            if len(t) == 2 and t[0] == "lit" and type(t[1]) in (int, float):
+                return ("lit", type(t[1])(repr(t[1])))
+            return tuple(fresh(x) for x in t)
+        return t
+
     d1 = list(E.depth1(E.BINOPS, leaves))
     trees = list(d1)
     trees += [("un", k, x) for k in T.UN for x in d1[::7] + leaves[:2]]
@@ -183,7 +219,7 @@ def job_exprs(_):
     texts = {}
     for t in trees:
         e1 = T.to_ref(t, mk())
-        e2 = T.to_ref(t, mk())
+        e2 = T.to_ref(fresh(t), mk())
         ev += 1
         ok = (e1 == e2) is True and hash(e1) == hash(e2) and {e1: 1}.get(e2) == 1
         if not ok and len(issues) < 20:
@@ -347,7 +383,9 @@ def finish(plan_, results):
            "dict_entries": r["dicts"]["dict_size"], "expression_trees_built_twice": r["exprs"]["evaluations"],
            "large_family_refs": r["family"]["evaluations"], "large_family_distinct_hashes": r["family"]["family_distinct_hashes"], "hash_spread_paths_vs_distinct_hashes": r["family"]["hash_spread"],
            "exhaustive": True,
-           "rule": "all paths (two labels x item/attr steps over the key pool: depth 1-2 full pool, depth 3-4 sub-pool); ALL ordered pairs "
+           "rule": "all paths (two labels x item/attr steps over the key pool: depth 1-2 full pool, depth 3-4 sub-pool; the default label '_' with "
+                   "members named like the other containers; the container refs themselves), one copy built over empty containers, the other "
+                   "by another manager over containers in which every path resolves to a five-entry list; ALL ordered pairs "
                    "compared; distinct_nontrivial = distinct paths + distinct expression texts",
            "samples": [{"keys": STR_KEYS[:8] + [repr(k) for k in OTHER_KEYS[:5]]},
                        {"pair": ["getattr(s, 'a.b')", "s.a.b"], "expected": "different"}]}
@@ -360,9 +398,11 @@ def replay(issue):
     case = issue["case"]
     if "pair" in case:
         m = xdeps.Manager()
-        roots = {"s": m.ref({}, "s"), "t": m.ref({}, "t")}
+        roots = {"s": m.ref({}, "s"), "t": m.ref({}, "t"), "_": m.ref({})}
+        m2 = xdeps.Manager()
+        roots2 = {"s": m2.ref(Universal(), "s"), "t": m2.ref(Universal(), "t"), "_": m2.ref(Universal())}
         p1, p2 = (ast.literal_eval(x) for x in case["pair"])
-        a, b = build(roots, p1), build(roots, p2)
+        a, b = build(roots, p1), build(roots2, p2)
         same = p1 == p2
         bad = (a == b) != same or (same and hash(a) != hash(b)) or ({a: 1}.get(b) == 1) != same
         return {"still_fails": bool(bad), "what": f"{a!r} vs {b!r}: == {a == b}, hash equal {hash(a) == hash(b)}"}
